@@ -13,7 +13,10 @@ Subset
                another pointer and never assigned again: resolved statically, they are names
                for (object, element type, byte offset)), local arrays of constant size, local
                unions of such arrays (all members at offset 0).
-  signed int   only where the value is provably the same as the unsigned one: non-negative
+  signed int   `int` scalars (loop counters, helper parameters) are kept in [0, 2^31): every int
+               + - * and every uint32 -> int conversion is GUARDED (a statement that evaluates to an
+               error when the result leaves the range, so the theorems prove it does not); otherwise
+               only where the value is provably the same as the unsigned one: non-negative
                integer constant expressions (folded here: `(i - 16) & 15`, `32 - (r)`,
                `i < 16` with literal i), 0/1 results of comparisons and `!`.
   expressions  literals, variables, a[i] / *p / u.m[i] (index any unsigned expression),
@@ -22,11 +25,14 @@ Subset
                integral casts (ECast when narrowing, nothing when zero-extending),
                = and op= (also as sub-expressions: `a = b = 0`), ++ -- (pre/post, also inside a
                loop condition: `while (n-- > 0)`), __builtin_bswap32/64, calls of functions
+               `c ? a : b` (an if assigning a fresh scalar), `&scalar` passed to an inlined function
+               (`*p` is then that scalar), memset (p, 0, constant) on a whole local array,
+               sizeof of an array, calls of functions
                defined in the same translation unit (INLINED: parameters become fresh scalars /
                pointer names, the body is translated in place, a single trailing `return e`).
   statements   compound, declarations, expression statements, if/else, while, for (as
                init; while (c) { body; inc }), a trailing `return;`.
-  not (yet)    switch, do-while, ?:, && ||, break/continue/goto, structs, signed arithmetic,
+  not (yet)    switch, do-while, && ||, break/continue/goto, structs, signed arithmetic,
                pointer arithmetic with a non-constant offset, pointer assignment, recursion; two operands of one
                operator may both carry side effects only when these are the parameter/result scalars of
                inlined calls.
@@ -44,6 +50,13 @@ KERNELS = [
     ("sha1_single", "sha1_mb/sha1_ctx_base.c", "sha1_single", "c01", "LLL"),
     ("sha512_single", "sha512_mb/sha512_ctx_base.c", "sha512_single", "c01", "LLL"),
     ("md5_single", "md5_mb/md5_ctx_base.c", "md5_single", "c01", "LL"),
+]
+
+
+# translated and proved in wip, not wired: needs fixes/sm3-base-rotate-count-zero.patch in /repo
+# (the current source shifts a uint32_t by 32, which the model - like C - leaves undefined)
+KERNELS_PENDING = [
+    ("sm3_single", "sm3_mb/sm3_ctx_base.c", "sm3_single", "c01", "LLLL"),
 ]
 
 
@@ -189,6 +202,7 @@ class Fn:
         self.fields = {}        # FieldDecl id -> (byte offset, type)
         self.depth = 0
         self.params = []        # ('scalar', vid, name, width) | ('ptr', oid, name)
+        self.failvar = None
 
     # ---- allocation
     def new_var(self, name, width):
@@ -226,6 +240,8 @@ class Fn:
                 return self.arr_lvalue(inner)
             if ck in ("BitCast", "NoOp"):
                 o, _, off = self.ptr(inner)
+                if isinstance(o, tuple) and ck == "BitCast":
+                    raise Unsupported("cast of the address of a scalar")
                 t = self.tu.ty(e)
                 if t[0] != "ptr":
                     raise Unsupported("cast of a pointer to a non-pointer")
@@ -234,6 +250,15 @@ class Fn:
                     raise Unsupported("misaligned pointer cast")
                 return (o, ew, off)
             raise Unsupported("pointer cast kind %s" % ck)
+        if k == "UnaryOperator" and e["opcode"] == "&":
+            inner = e["inner"][0]
+            while inner["kind"] == "ParenExpr":
+                inner = inner["inner"][0]
+            if inner["kind"] == "DeclRefExpr":
+                b = self.bind.get(inner["referencedDecl"]["id"])
+                if b and b[0] == "scalar":
+                    return (("V", b[1], b[2]), b[2], 0)
+            raise Unsupported("address of something that is not a scalar local")
         if k == "BinaryOperator" and e["opcode"] in ("+", "-"):
             l, r = e["inner"]
             lt = self.tu.ty(l)
@@ -316,6 +341,8 @@ class Fn:
             if self.tu.ty(base)[0] != "ptr":
                 base, idx = idx, base
             o, ew, off = self.ptr(base)
+            if isinstance(o, tuple):
+                raise Unsupported("subscript of the address of a scalar")
             if ew is None:
                 raise Unsupported("subscript of void *")
             w, signed = self.uint_width(e, "array element")
@@ -331,6 +358,8 @@ class Fn:
             return pre, ("mem", o, ew, ix)
         if k == "UnaryOperator" and e["opcode"] == "*":
             o, ew, off = self.ptr(e["inner"][0])
+            if isinstance(o, tuple):
+                return [], ("scalar", o[1], o[2])
             if ew is None:
                 raise Unsupported("dereference of void *")
             if off % (ew // 8):
@@ -343,7 +372,7 @@ class Fn:
         t = self.tu.ty(node)
         if t[0] != "int":
             raise Unsupported("non-integer index")
-        if t[2] and ix[0] != "C":
+        if t[2] and ix[0] != "C" and not (t[1] == 32):
             raise Unsupported("signed non-constant index")
         if ix[0] == "C" and ix[1] < 0:
             raise Unsupported("negative index")
@@ -366,6 +395,30 @@ class Fn:
     def pure_index(self, lv):
         """an lvalue read twice (x op= e, x++) must have a side-effect-free, stable index"""
         return True
+
+    def fail_stmt(self):
+        """a statement whose evaluation is an error of the model (shift by the full width)"""
+        if self.failvar is None:
+            self.failvar = self.new_var("ub.fail", 32)
+        return ("A", self.failvar, ("B", "<<", 32, ("C", 0), ("C", 32)))
+
+    def guard(self, cond):
+        """fail (model error) when cond is non-zero"""
+        return ("I", cond, [self.fail_stmt()], [])
+
+    def signed_op(self, op, a, b):
+        """int op on values kept in [0, 2^31): the result, with the guards that keep it there"""
+        if op == "+":
+            v = ("B", "+", 32, a, b)
+            return [self.guard(("P", ">=", v, ("C", 2 ** 31)))], v
+        if op == "-":
+            return [self.guard(("P", "<", a, b))], ("B", "-", 32, a, b)
+        if op == "*":
+            v = ("B", "*", 64, a, b)
+            return [self.guard(("P", ">=", v, ("C", 2 ** 31)))], ("X", 32, v)
+        if op in ("%", "/", "&", "|", "^", ">>"):
+            return [], ("B", op, 32, a, b)
+        raise Unsupported("signed %s on non-constant values" % op)
 
     def only_fresh_writes(self, pre):
         """pre-statements that only assign scalars created by inlining a call (unique per call
@@ -404,6 +457,13 @@ class Fn:
             ck = e.get("castKind")
             inner = e["inner"][0]
             if ck == "LValueToRValue":
+                ii = inner
+                while ii["kind"] == "ParenExpr":
+                    ii = ii["inner"][0]
+                if ii["kind"] == "DeclRefExpr":
+                    b0 = self.bind.get(ii["referencedDecl"]["id"])
+                    if b0 and b0[0] == "const":
+                        return [], ("C", b0[1])
                 pre, lv = self.lvalue(inner)
                 return pre, self.read(lv)
             if ck == "NoOp":
@@ -421,10 +481,14 @@ class Fn:
                         if x[0] == "C" and not (-2 ** (tw - 1) <= x[1] < 2 ** (tw - 1)):
                             raise Unsupported("constant does not fit the cast target")
                         return pre, x
+                    if sw == 32 and tw >= 32:
+                        return pre, x          # an int kept in [0, 2^31): the same value at any type of >= 32 bits
                     raise Unsupported("cast from a signed non-constant value")
                 if tsigned:
                     if sw < tw:
                         return pre, x          # zero-extension, value preserved, non-negative
+                    if sw == 32 and tw == 32:  # uint32 -> int: guarded
+                        return pre + [self.guard(("P", ">=", x, ("C", 2 ** 31)))], x
                     raise Unsupported("cast of an unsigned value to a signed type of the same or smaller width")
                 if tw < sw:
                     return pre, ("X", tw, x)
@@ -456,9 +520,15 @@ class Fn:
                 pre, lv = self.lvalue(inner)
                 w = self.lv_width(lv)
                 tw, signed = self.uint_width(e)
-                if signed or tw != w:
-                    raise Unsupported("++/-- on a signed or promoted value")
-                newv = ("B", "+" if op == "++" else "-", w, self.read(lv), ("C", 1))
+                if tw != w:
+                    raise Unsupported("++/-- on a promoted value")
+                if signed:
+                    if w != 32:
+                        raise Unsupported("++/-- on a signed value that is not an int")
+                    g, newv = self.signed_op("+" if op == "++" else "-", self.read(lv), ("C", 1))
+                    pre = pre + g
+                else:
+                    newv = ("B", "+" if op == "++" else "-", w, self.read(lv), ("C", 1))
                 if void:
                     return pre + [self.write(lv, newv)], ("C", 0)
                 if e.get("isPostfix"):
@@ -474,7 +544,7 @@ class Fn:
                 prel, lv = self.lvalue(l)
                 w = self.lv_width(lv)
                 rw, rsigned = self.uint_width(r, "assigned value")
-                if rsigned and x[0] not in ("C", "P", "!"):
+                if rsigned and x[0] not in ("C", "P", "!") and not (rw == 32 and w >= 32):
                     raise Unsupported("assignment of a signed value")
                 if rw > w or (x[0] == "C" and x[1] >= 2 ** w):
                     raise Unsupported("assignment narrows without a cast")
@@ -492,6 +562,9 @@ class Fn:
                 if signed:
                     if a[0] == "C" and b[0] == "C":
                         return pl + pr, ("C", fold_signed(op, a[1], b[1]))
+                    if w == 32 and not (a[0] == "C" and a[1] < 0) and not (b[0] == "C" and b[1] < 0):
+                        g, v = self.signed_op(op, a, b)
+                        return pl + pr + g, v
                     raise Unsupported("signed arithmetic (%s at type int)" % op)
                 if op in ("<<", ">>"):
                     lw, lsigned = self.uint_width(l)
@@ -504,8 +577,10 @@ class Fn:
                 self.both_sides(pl, pr, op)
                 for side, x in ((l, a), (r, b)):
                     sw, ssigned = self.uint_width(side, "comparison operand")
-                    if ssigned and x[0] not in ("C", "P", "!"):
+                    if ssigned and x[0] not in ("C", "P", "!") and sw != 32:
                         raise Unsupported("comparison of signed values")
+                    if x[0] == "C" and x[1] < 0 and not (a[0] == "C" and b[0] == "C"):
+                        raise Unsupported("comparison with a negative constant")
                 if a[0] == "C" and b[0] == "C":
                     va, vb = a[1], b[1]
                     res = {"<": va < vb, "<=": va <= vb, ">": va > vb, ">=": va >= vb, "==": va == vb, "!=": va != vb}[op]
@@ -528,6 +603,34 @@ class Fn:
             if ct[1] > w:
                 v = ("X", w, v)
             return prer + prel + [self.write(lv, v)], (("C", 0) if void else self.read(lv))
+        if k == "ConditionalOperator":
+            c0, a0, b0 = e["inner"]
+            pc, c = self.tx(c0)
+            pa, a = self.tx(a0)
+            pb, b = self.tx(b0)
+            w, signed = self.uint_width(e)
+            if signed and w != 32:
+                raise Unsupported("?: at a signed type that is not int")
+            for x in (a, b):
+                if x[0] == "C" and x[1] < 0:
+                    raise Unsupported("negative constant in ?:")
+            t = self.new_var("cond." + str(len(self.vars)), w)
+            return pc + [("I", c, pa + [("A", t, a)], pb + [("A", t, b)])], ("V", t)
+        if k == "UnaryExprOrTypeTraitExpr" and e.get("name") == "sizeof":
+            if "argType" in e:
+                t = self.tu.parse(e["argType"].get("desugaredQualType") or e["argType"]["qualType"])
+            else:
+                inner = e["inner"][0]
+                while inner["kind"] == "ParenExpr":
+                    inner = inner["inner"][0]
+                t = self.tu.ty(inner)
+            def size(t):
+                if t[0] == "int":
+                    return t[1] // 8
+                if t[0] == "arr":
+                    return t[2] * size(t[1])
+                raise Unsupported("sizeof of %s" % (t,))
+            return [], ("C", size(t))
         if k == "CallExpr":
             callee = e["inner"][0]
             while callee["kind"] in ("ImplicitCastExpr", "ParenExpr"):
@@ -539,6 +642,19 @@ class Fn:
             if name in ("__builtin_bswap32", "__builtin_bswap64"):
                 pre, x = self.tx(args[0])
                 return pre, ("S", 32 if name.endswith("32") else 64, x)
+            if name == "memset":
+                # memset (p, 0, n) over a whole local array: zero stores at the array's element width
+                o, _, off = self.ptr(args[0])
+                val = self.const_of(args[1])
+                n = self.const_of(args[2])
+                if isinstance(o, tuple) or off != 0 or val != 0 or n is None:
+                    raise Unsupported("memset other than (array, 0, constant)")
+                ob = self.objs[o]
+                if ob["kind"] != "local" or ob["nbytes"] != n or len(ob["views"]) != 1:
+                    raise Unsupported("memset that does not clear exactly one whole local array")
+                ew = next(iter(ob["views"]))
+                ob["written"] = True
+                return [("T", o, ew, ("C", i), ("C", 0)) for i in range(n * 8 // ew)], ("C", 0)
             if name in self.tu.funcs:
                 return self.inline(self.tu.funcs[name], args, void)
             raise Unsupported("call of `%s` (not defined in this file)" % name)
@@ -557,9 +673,15 @@ class Fn:
             for p, a in zip(params, args):
                 t = self.tu.ty(p)
                 if t[0] == "int":
-                    if t[2]:
+                    if t[2] and t[1] != 32:
                         raise Unsupported("signed parameter of `%s`" % fdecl["name"])
                     pa, x = self.tx(a)
+                    if t[2] and x[0] == "C":
+                        # an int parameter given a constant: bound to the constant itself
+                        pre += pa
+                        saved[p["id"]] = self.bind.get(p["id"])
+                        self.bind[p["id"]] = ("const", x[1])
+                        continue
                     v = self.new_var("%s.%s" % (fdecl["name"], p.get("name", "_")), t[1])
                     pre += pa + [("A", v, x)]
                     nb = ("scalar", v, t[1])
@@ -669,7 +791,7 @@ class Fn:
         init = d["inner"][0] if d.get("inner") else None
         name = d.get("name", "_")
         if t[0] == "int":
-            if t[2]:
+            if t[2] and t[1] != 32:
                 raise Unsupported("signed local `%s`" % name)
             v = self.new_var(name, t[1])
             self.bind[d["id"]] = ("scalar", v, t[1])
